@@ -87,7 +87,10 @@ func (s *State) Get(key StoreKey) ([]byte, error) {
 		// Get the txSession first
 		result, err := s.txSession.Get(key)
 		if err == nil {
-			// if got result, return directly
+			// if got result, return directly; a key deleted in the session reads as absent
+			if isDeleted(result) {
+				return nil, nil
+			}
 			return result, err
 		}
 	}
@@ -95,12 +98,20 @@ func (s *State) Get(key StoreKey) ([]byte, error) {
 	// Get the cache first
 	result, err := s.cache.Get(key)
 	if err == nil {
-		// if got result, return directly
+		// if got result, return directly; a key deleted in the block reads as absent
+		if isDeleted(result) {
+			return nil, nil
+		}
 		return result, err
 	}
 
 	// if didn't get result in cache, get from ChainState
 	return s.cs.Get(key)
+}
+
+// isDeleted tells whether an overlay entry is the marker left by Delete
+func isDeleted(value []byte) bool {
+	return bytes.Equal(value, []byte(TOMBSTONE))
 }
 
 func (s *State) Set(key StoreKey, value []byte) error {
@@ -118,7 +129,9 @@ func (s *State) Exists(key StoreKey) bool {
 		// check existence in txSession
 		exist := s.txSession.Exists(key)
 		if exist {
-			return exist
+			// the session entry may be a delete marker
+			value, _ := s.txSession.Get(key)
+			return !isDeleted(value)
 		}
 	}
 
@@ -129,6 +142,14 @@ func (s *State) Exists(key StoreKey) bool {
 		return s.cs.Exists(key)
 	}
 
+	// the cache entry may be a delete marker; look at it through the unmetered
+	// cache so that the existence check is not charged a second time
+	if raw, ok := s.cache.GetIterable().(Store); ok {
+		value, err := raw.Get(key)
+		if err == nil && isDeleted(value) {
+			return false
+		}
+	}
 	return exist
 }
 
@@ -157,7 +178,8 @@ func (s *State) Iterate(fn func(key []byte, value []byte) bool) (stopped bool) {
 
 	for _, key := range keys {
 		value, err := s.Get(key)
-		if err != nil {
+		if err != nil || value == nil {
+			// unreadable, or deleted in an overlay and not flushed yet
 			continue
 		}
 		stop := fn(key, value)
@@ -177,7 +199,8 @@ func (s *State) IterateRange(start, end []byte, ascending bool, fn func(key, val
 	//todo: we can't get the key for anything that's only in the cache,
 	for _, key := range keys {
 		value, err := s.Get(key)
-		if err != nil {
+		if err != nil || value == nil {
+			// unreadable, or deleted in an overlay and not flushed yet
 			continue
 		}
 		stop := fn(key, value)
